@@ -276,6 +276,15 @@ func init() {
 		x.assumed["library: azcosmos.PatchOperations.Append* add one patch operation (path, value) to the request; the operations are observed through contract monitors, the list is the SDK's"] = true
 		return Value{}
 	}
+	// azcosmos.TransactionalBatch: CreateItem / DeleteItem / ReplaceItem add one operation to the batch; the ghost batchOps
+	// (declared in /verif/spec/cosmosdb.spec) counts them, contract monitors observe their arguments
+	rulePrefixes["azcosmos.(*TransactionalBatch)."] = func(x *Exec, fr *Frame, st *State, ins ssa.Instruction, sig *types.Signature, args []Value) Value {
+		x.assumed["library: azcosmos.TransactionalBatch.CreateItem/DeleteItem/ReplaceItem add one operation to the batch (counted by ghost batchOps, observed through contract monitors); the batch itself is the SDK's"] = true
+		if _, ok := ghostSorts["batchOps"]; ok {
+			st.setG("batchOps", Add(st.G("batchOps"), Int(1)))
+		}
+		return x.resultValue(st, "batchop", sig.Results())
+	}
 	// azcore runtime.Pager[T] (query results of the Cosmos DB client): More and NextPage are the service's; they return
 	// unconstrained values and write nothing visible to /repo
 	rulePrefixes["runtime.(*Pager["] = func(x *Exec, fr *Frame, st *State, ins ssa.Instruction, sig *types.Signature, args []Value) Value {
